@@ -62,7 +62,6 @@ def run(ctx):
                          "broken/slow VMs, destroy failures, rate limit, external cancels, hold/drain, one restart. distinct by hash of "
                          "the case term; non-trivial = at least one queue/pool call (runq, sync), one StartContainer (wp), any run (e2e)",
                     extra={"e2e_notes": notes},
-                    known_bits={4: "F21b"},
                     assumptions=[
                         "environment assumptions of the transition system (guards A1-A6 in coq/model/C14_sys.v): gone instance => no "
                         "processes; a pass starts nothing that still has a process on an undiscovered instance (fixStaleLocks; the stale-lock "
@@ -72,6 +71,6 @@ def run(ctx):
                         "command are one step; goroutine scheduling, timers, SSH and the real crunch-run are not modelled",
                         "e2e stage is exploration: its judge is proved to reflect its Prop-level statement, but there is no model of the run; "
                         "1500 ms tolerance only for external cancels and instances seen held/draining/shut down, none for the dispatcher's own "
-                        "Unlock/Cancel; residual finding F21b has a narrow trigger predicate and its own result bit",
+                        "Unlock/Cancel (finding F21 is fixed)",
                         "time is a logical clock in the worker model; timeouts are compared only as expired (1 ns) / not expired (1 h)",
                     ])
